@@ -42,7 +42,7 @@ def run(ctx):
     if err:
         ctx.violation('translator of the buffer stack functions gave up: ' + err, {'error': err}, no_input=True)
     q1, q2, q3 = {'quick': (64, 48, 32), 'thorough': (600, 400, 200)}[ctx.tier]
-    plan = [('buffers', q1, 8), ('include', q2, 6), ('wrapbol', q2, 6)]
+    plan = [('buffers', q1, 8), ('include', q2, 6), ('wrapbol', q2, 6), ('switchwrap', q3, 6)]
     return rtprop.run(ctx, THEOREMS + STACK_THEOREMS, plan, 'proof',
                       'multiple input buffers: histories of create/scan_string/scan_bytes/scan_buffer (with and without the two NULs)/switch/push/pop/flush/delete between yylex calls and from inside actions (nested includes ended by <<EOF>> actions that pop and continue), buffer sizes 1..16384, per-buffer line numbers in reentrant scanners; the abstract scanner keeps one independent unread-input list per buffer; the buffer *stack* code itself (yyensure_buffer_stack, yypush_buffer_state, yypop_buffer_state, yy_switch_to_buffer, yy_current_buffer()) is translated from a scanner flex generates in this run (Gen/BufStack.lean) and proved to implement a stack of buffer handles for every sequence of calls, with exactly the popped buffers deleted and no access to yy_buffer_stack[] out of bounds - growth by 8 slots and zeroing of fresh slots included (C11Stack.stack_refines, current_after, deleted_after); what those functions do to the *contents* of buffers is outside that translation' + '. Kernel-checked theorems about the abstract scanner (listed under obligations) + differential '
                       'correspondence of the real generated scanner (ASan/UBSan build) with that model on generated cases.')
